@@ -1,8 +1,332 @@
 import CM.Lib.Wire
-/-! Driver handler for C17 (stub: not built yet). -/
-namespace CM.Drv.C17
-open CM.Wire
+import CM.Model.RateLimit
+/-!
+Driver handler for C17.
 
-def handle (_args _impl : List String) : String := bad
+Request: `trace <N> <W> <script event>* => <observation>*` — one whole history per line.
+
+Script events (`@t` = virtual instant in ns since `NewRateLimiter` returned):
+  `c<w>@t` waiter w calls Wait      `x<w>@t` w's context is cancelled     `a<w>@t` w calls Allow
+  `m<n>@t` SetMaxEvents(n)          `w<d>@t` SetWindow(d)                 `q@t` read ring+cursor
+  `e@t`    Stop
+The harness processes an event at `t` as: sleep until `t`, let every goroutine block
+(`synctest.Wait`), report the returns seen so far sorted by (instant, waiter); act; let every
+goroutine block again; report. The predictor below does exactly that on the model: it is
+the LTS `CM.RateLimit.step` driven by the maximal-progress scheduler (an enabled step of the
+loop goroutine is taken at once; time advances only when none is enabled) with waiters
+served in the order they blocked (Go's channel receive queue is FIFO).
+
+Observations: `A<w>@t` Wait returned nil; `C<w>@t` Wait returned Canceled; `L<w>:0|1` Allow;
+`M`/`M!` `W`/`W!` setter returned / panicked; `Q:<cursor>:<slot>,…` (`z` = zero time); `E`.
+
+The specification verdict is computed from the IMPLEMENTATION's observations alone (plus the
+script): sliding-window bound per period of constant configuration (`checkAdm`, the function
+`C17_bound_trace` is about), cancellation prompt and without a slot, zero window never
+sleeps, ring = last admissions, `SetMaxEvents` keeps the newest.
+-/
+namespace CM.Drv.C17
+open CM.Wire CM.RateLimit
+
+inductive SEv
+  | call (w : Nat) | cancel (w : Nat) | allow (w : Nat)
+  | setMax (n : Nat) | setWin (d : Nat) | read | stop
+
+def kind (s : String) : String := String.ofList (s.toList.take 1)
+def rest (s : String) : String := String.ofList (s.toList.drop 1)
+
+/-- parse `<k><arg>@<t>` -/
+def parseEv (tok : String) : Option (SEv × Nat) :=
+  match tok.splitOn "@" with
+  | [a, t] =>
+    match t.toNat? with
+    | none => none
+    | some t =>
+      let k := kind a
+      let arg := (rest a).toNat?
+      if k = "q" ∧ a.length = 1 then some (.read, t)
+      else if k = "e" ∧ a.length = 1 then some (.stop, t)
+      else match arg with
+        | none => none
+        | some n =>
+          if k = "c" then some (.call n, t)
+          else if k = "x" then some (.cancel n, t)
+          else if k = "a" then some (.allow n, t)
+          else if k = "m" then some (.setMax n, t)
+          else if k = "w" then some (.setWin n, t)
+          else none
+  | _ => none
+
+def parseScript (toks : List String) : Option (List (SEv × Nat)) :=
+  toks.foldr (fun tk acc => match parseEv tk, acc with
+    | some e, some l => some (e :: l)
+    | _, _ => none) (some [])
+
+/-! ### predictor -/
+
+structure Sim where
+  st    : St
+  q     : List Nat                      -- waiters blocked in Wait, in arrival order
+  batch : List (Nat × Nat × Bool)       -- returns not yet reported: (instant, waiter, admitted?)
+  out   : List String                   -- reversed
+  stuck : Bool
+
+def Sim.doStep (m : Sim) (e : Ev) : Sim :=
+  match step m.st e with
+  | some s' => { m with st := s' }
+  | none => { m with stuck := true }
+
+/-- run the loop goroutine and the hand-offs until nothing more can happen at this instant -/
+def settle : Nat → Sim → Sim
+  | 0, m => m
+  | f + 1, m =>
+    if m.stuck then m else
+    match m.st.phase with
+    | .idle => settle f (m.doStep .compute)
+    | .sleeping t _ => if t ≤ m.st.now then settle f (m.doStep .fire) else m
+    | .offering _ =>
+      match m.q with
+      | w :: q' =>
+        let m1 := m.doStep (.handoff w)
+        settle f { m1 with q := q', batch := (m.st.now, w, true) :: m1.batch }
+      | [] => m
+    | .recording _ => settle f (m.doStep .record)
+    | .stopped => m
+
+def Sim.settleAll (m : Sim) : Sim := settle (5 * (m.q.length + 2)) m
+
+def Sim.tickTo (m : Sim) (t : Nat) : Sim := m.doStep (.tick (t - m.st.now))
+
+/-- let virtual time pass until `t`, waking the loop goroutine whenever its timer is due -/
+def advanceTo : Nat → Nat → Sim → Sim
+  | 0, _, m => { m with stuck := true }
+  | f + 1, t, m =>
+    let m := m.settleAll
+    match m.st.phase with
+    | .sleeping t' _ => if t' ≤ t then advanceTo f t (m.tickTo t') else m.tickTo t
+    | _ => m.tickTo t
+
+def showSlot : Option Nat → String
+  | none => "z"
+  | some t => toString t
+
+def showRing (ring : List (Option Nat)) (cursor : Nat) : String :=
+  "Q:" ++ toString cursor ++ ":" ++ (if ring = [] then "-" else String.intercalate "," (ring.map showSlot))
+
+def leB (a b : Nat × Nat × Bool) : Bool := a.1 < b.1 || (a.1 == b.1 && a.2.1 ≤ b.2.1)
+
+def Sim.flush (m : Sim) : Sim :=
+  let sorted := m.batch.mergeSort leB
+  let toks := sorted.map (fun (t, w, ok) => (if ok then "A" else "C") ++ toString w ++ "@" ++ toString t)
+  { m with batch := [], out := toks.reverse ++ m.out }
+
+def Sim.emit (m : Sim) (s : String) : Sim := { m with out := s :: m.out }
+
+def isOffering : Phase → Bool
+  | .offering _ => true
+  | _ => false
+
+def applyEv (m : Sim) (e : SEv) : Sim :=
+  match e with
+  | .call w => { m.doStep (.call w) with q := m.q ++ [w] }
+  | .cancel w =>
+    if m.q.contains w then
+      let m1 := m.doStep (.cancel w)
+      { m1 with q := m.q.erase w, batch := (m.st.now, w, false) :: m1.batch }
+    else m
+  | .allow w =>
+    let hit := isOffering m.st.phase
+    (m.doStep (.allow w)).emit ("L" ++ toString w ++ ":" ++ (if hit then "1" else "0"))
+  | .setMax n =>
+    match step m.st (.setMax n) with
+    | some s' => { m with st := s' }.emit "M"
+    | none => m.emit "M!"
+  | .setWin d =>
+    match step m.st (.setWindow d) with
+    | some s' => { m with st := s' }.emit "W"
+    | none => m.emit "W!"
+  | .read => m.emit (showRing m.st.ring m.st.cursor)
+  | .stop => (m.doStep .stop).emit "E"
+
+def simulate (N W : Nat) (script : List (SEv × Nat)) : Sim :=
+  let m0 : Sim := { st := init N W 0, q := [], batch := [], out := [], stuck := false }
+  script.foldl (fun m (e, t) =>
+    let m := (advanceTo (m.q.length + 3) t m).settleAll.flush
+    ((applyEv m e).settleAll).flush) m0
+
+def modelOut (m : Sim) : String :=
+  if m.stuck then "STUCK" else String.intercalate " " m.out.reverse
+
+/-! ### specification on the implementation's observations -/
+
+structure Judge where
+  N : Nat
+  W : Nat
+  seg : List Nat := []          -- admissions of the current period, newest first
+  all : List Nat := []          -- all admissions
+  changed : Bool := false
+  done : List Nat := []         -- waiters that returned
+  ms : List Nat                 -- arguments of the SetMaxEvents calls still to come
+  wsArgs : List Nat             -- arguments of the SetWindow calls still to come
+  lastQ : Option (List (Option Nat)) := none   -- view at the last `Q` if nothing happened since
+  pendingM : Option (List (Option Nat) × Nat) := none  -- (view before, n) of a `Q M` just seen
+  bad : Option String := none
+
+def lookupT (l : List (Nat × Nat)) (w : Nat) : Option Nat := (l.find? (fun p => p.1 == w)).map (·.2)
+
+def parseSlot (s : String) : Option (Option Nat) :=
+  if s = "z" then some none else s.toNat?.map some
+
+def parseQ (tok : String) : Option (Nat × List (Option Nat)) :=
+  match tok.splitOn ":" with
+  | ["Q", c, r] =>
+    match c.toNat? with
+    | none => none
+    | some c =>
+      if r = "-" then some (c, []) else
+      (r.splitOn ",").foldr (fun s acc => match parseSlot s, acc with
+        | some v, some l => some (v :: l)
+        | _, _ => none) (some []) |>.map (fun l => (c, l))
+  | _ => none
+
+/-- parse `A<w>@t` / `C<w>@t` -/
+def parseRet (tok : String) : Option (Nat × Nat) :=
+  match (rest tok).splitOn "@" with
+  | [w, t] => match w.toNat?, t.toNat? with
+    | some w, some t => some (w, t)
+    | _, _ => none
+  | _ => none
+
+def count (l : List Nat) (v : Nat) : Nat := (l.filter (· == v)).length
+
+def slotsBacked (ring : List (Option Nat)) (all : List Nat) : Bool :=
+  ring.all (fun o => match o with
+    | none => true
+    | some v => count (ring.filterMap id) v ≤ count all v)
+
+/-- the newest `min(N, k)` slots of the view are the last `k` admissions of the period, in order -/
+def ringIsLastAdm (v : List (Option Nat)) (seg : List Nat) : Bool :=
+  let k := min v.length seg.length
+  v.drop (v.length - k) == ((seg.take k).reverse.map some)
+
+def Judge.fail (j : Judge) (why : String) : Judge :=
+  match j.bad with
+  | some _ => j
+  | none => { j with bad := some why }
+
+def Judge.admission (j : Judge) (w t : Nat) (callT : Option Nat) (cancelT : Option Nat := none) : Judge :=
+  let j := if j.done.contains w then j.fail "double-return" else j
+  let j := match cancelT with
+    | some c => if c < t then j.fail "admitted-after-cancel" else j
+    | none => j
+  let j := match callT with
+    | none => j.fail "admitted-without-call"
+    | some c => if t < c then j.fail "admitted-before-call" else
+      -- zero window: no sleeping, except for the one iteration scheduled before a change
+      if j.W = 0 ∧ t ≠ c ∧ ¬ (j.changed ∧ (j.seg = [] ∨ j.seg.getLast? = some t)) then j.fail "zero-window-slept" else j
+  let j := if checkAdm j.N j.W j.seg t then j else j.fail "window-exceeded"
+  { j with seg := t :: j.seg, all := t :: j.all, done := w :: j.done, lastQ := none, pendingM := none }
+
+def judgeTok (calls cancels allows : List (Nat × Nat)) (j : Judge) (tok : String) : Judge :=
+  let k := kind tok
+  if k = "A" then
+    match parseRet tok with
+    | some (w, t) => j.admission w t (lookupT calls w) (lookupT cancels w)
+    | none => j.fail "unparsable"
+  else if k = "C" then
+    match parseRet tok with
+    | some (w, t) =>
+      let j := if j.done.contains w then j.fail "double-return" else j
+      let j := match lookupT cancels w with
+        | none => j.fail "cancel-without-request"
+        | some c => if t ≠ c then j.fail "cancel-not-prompt" else j
+      { j with done := w :: j.done }
+    | none => j.fail "unparsable"
+  else if k = "L" then
+    match (rest tok).splitOn ":" with
+    | [w, r] =>
+      match w.toNat? with
+      | some w =>
+        if r = "1" then
+          match lookupT allows w with
+          | some t => j.admission w t (some t)
+          | none => j.fail "allow-without-call"
+        else { j with done := w :: j.done }
+      | none => j.fail "unparsable"
+    | _ => j.fail "unparsable"
+  else if k = "M" then
+    match j.ms with
+    | [] => j.fail "unexpected-setmax"
+    | n :: rest =>
+      let j := { j with ms := rest }
+      let invalid := n = 0 ∧ j.W ≠ 0
+      if tok = "M!" then
+        (if invalid then j else j.fail "setmax-panicked") |> fun j => { j with lastQ := none, pendingM := none }
+      else if invalid then j.fail "invalid-config-accepted"
+      else
+        let pm := j.lastQ.map (fun v => (v, n))
+        if n = j.N then { j with lastQ := none, pendingM := pm }
+        else { j with N := n, seg := [], changed := true, lastQ := none, pendingM := pm }
+  else if k = "W" then
+    match j.wsArgs with
+    | [] => j.fail "unexpected-setwindow"
+    | d :: rest =>
+      let j := { j with wsArgs := rest, lastQ := none, pendingM := none }
+      let invalid := j.N = 0 ∧ d ≠ 0
+      if tok = "W!" then (if invalid then j else j.fail "setwindow-panicked")
+      else if invalid then j.fail "invalid-config-accepted"
+      else if d = j.W then j
+      else { j with W := d, seg := [], changed := true }
+  else if k = "Q" then
+    match parseQ tok with
+    | none => j.fail "unparsable"
+    | some (c, ring) =>
+      let v := view ring c
+      let j := if ring.length ≠ j.N then j.fail "ring-length" else j
+      let j := if ¬ (c < ring.length ∨ (ring = [] ∧ c = 0)) then j.fail "cursor-outside-ring" else j
+      let j := if slotsBacked ring j.all then j else j.fail "slot-without-admission"
+      let j := if ringIsLastAdm v j.seg then j else j.fail "ring-not-last-admissions"
+      let j := match j.pendingM with
+        | some (before, n) => if v == resizeSpec before n then j else j.fail "resize-not-newest"
+        | none => j
+      { j with lastQ := some v, pendingM := none }
+  else if k = "E" then
+    -- every waiter whose context was cancelled has returned (at once, or it had been admitted)
+    if cancels.all (fun p => j.done.contains p.1 || (lookupT calls p.1).isNone) then j else j.fail "cancel-ignored"
+  else j.fail "unparsable"
+
+def judge (N W : Nat) (script : List (SEv × Nat)) (impl : List String) : String :=
+  let calls := script.filterMap (fun p => match p.1 with | .call w => some (w, p.2) | _ => none)
+  let cancels := script.filterMap (fun p => match p.1 with | .cancel w => some (w, p.2) | _ => none)
+  let allows := script.filterMap (fun p => match p.1 with | .allow w => some (w, p.2) | _ => none)
+  let ms := script.filterMap (fun p => match p.1 with | .setMax n => some n | _ => none)
+  let wsA := script.filterMap (fun p => match p.1 with | .setWin d => some d | _ => none)
+  let j0 : Judge := { N := N, W := W, ms := ms, wsArgs := wsA }
+  let j := impl.foldl (judgeTok calls cancels allows) j0
+  match j.bad with
+  | some why => "bad:" ++ why
+  | none => "ok"
+
+def bucket (n : Nat) : String :=
+  if n = 0 then "0" else if n ≤ 2 then "1-2" else if n ≤ 8 then "3-8" else if n ≤ 20 then "9-20" else "21+"
+
+def tagOf (N W : Nat) (script : List (SEv × Nat)) (m : Sim) : String :=
+  let has (p : SEv → Bool) := script.any (fun e => p e.1)
+  "N" ++ toString N ++ (if W = 0 then "Z" else "") ++ ":" ++
+  (if has (fun e => match e with | .setMax _ => true | _ => false) then "R" else "") ++
+  (if has (fun e => match e with | .setWin _ => true | _ => false) then "V" else "") ++
+  (if has (fun e => match e with | .cancel _ => true | _ => false) then "C" else "") ++
+  (if has (fun e => match e with | .allow _ => true | _ => false) then "L" else "") ++
+  ":a" ++ bucket m.st.got.length ++ ":w" ++ bucket m.q.length
+
+def handle (args impl : List String) : String :=
+  match args with
+  | "trace" :: n :: w :: evs =>
+    match n.toNat?, w.toNat?, parseScript evs with
+    | some N, some W, some script =>
+      if N = 0 ∧ W ≠ 0 then bad else
+      let m := simulate N W script
+      reply (modelOut m) (if impl = [] then "-" else judge N W script impl) (tagOf N W script m)
+    | _, _, _ => bad
+  | _ => bad
 
 end CM.Drv.C17
